@@ -4,6 +4,7 @@ import LexVerif.Model.Dragonbox
 import LexVerif.Model.Format
 import LexVerif.Model.WriteBinary
 import LexVerif.Model.Grisu
+import LexVerif.Model.WriteRadixInt
 /-!
 # Model.Ops.WriteAlgos — line-protocol handlers for the float-writer components
 
@@ -64,12 +65,38 @@ def runWf (feats : Features) (ty f bits : String) (opts : List String) (buflen :
     else none
   | _, _, _ => none
 
+/-- `wf` in a generic radix (radix.rs) for floats with an integral value below the mantissa limit, default digit options -/
+def runWfRadixInt (feats : Features) (ty f bits : String) (opts : List String) (buflen : String) : Option String :=
+  match Dragonbox.FTy.ofName ty, ofHex f, ofHex bits with
+  | some t, some fr, some b =>
+    let fmt : Format := ⟨fr⟩
+    let o := wOptsOf opts
+    let r := fmt.mantissaRadix
+    let plain := fmt.flagBits = 12 ∧ fmt.basePrefix = 0 ∧ fmt.baseSuffix = 0 ∧ fmt.digitSeparator = 0
+    let punct := (digitVal r o.exp).isNone ∧ (digitVal r o.dp).isNone ∧ o.exp ≠ o.dp
+      ∧ o.exp ≠ 43 ∧ o.exp ≠ 45 ∧ o.dp ≠ 43 ∧ o.dp ≠ 45
+    let mag := b &&& (t.signMask - 1)
+    let special := mag &&& t.exponentMask = t.exponentMask
+    if feats.radix ∧ 2 ≤ r ∧ r ≤ 36 ∧ ¬ WriteBinary.isPow2Radix r ∧ r ≠ 10 ∧ fmt.exponentBase = r
+        ∧ 2 ≤ fmt.exponentRadix ∧ fmt.exponentRadix ≤ 36
+        ∧ plain ∧ punct ∧ o.maxDigits.isNone ∧ o.minDigits.isNone ∧ buflen = "-" ∧ ¬ special then
+      match WriteRadixInt.integralValue t mag with
+      | some n =>
+        let sign : List Nat := if b &&& t.signMask ≠ 0 then [45] else []
+        some s!"ok {hexBytes (sign ++ WriteBinary.render fmt feats o (WriteRadixInt.layoutInt fmt o WriteRadixInt.exactOps n))}"
+      | none => none
+    else none
+  | _, _, _ => none
+
 def handle (feats : Features) (t : List String) : Option String :=
   match t with
   | ["td", ty, bits] => if feats.compact then some "nofeature" else runTd ty bits
   | ["gr", ty, bits] => if feats.compact then runGr ty bits else some "nofeature"
   | "wf" :: ty :: f :: bits :: rest =>
-    if rest.length = 11 then runWf feats ty f bits (rest.take 10) (rest.getD 10 "-") else none
+    if rest.length = 11 then
+      (runWf feats ty f bits (rest.take 10) (rest.getD 10 "-")).orElse
+        fun _ => runWfRadixInt feats ty f bits (rest.take 10) (rest.getD 10 "-")
+    else none
   | _ => none
 
 /-- specification of `td`: the candidates of the oracle -/
